@@ -124,7 +124,9 @@ def delta_case(kind, call, edge, mixed=False):
                 away = api.all_(away, api.not_(api.eq(se, 0)))
         o = elem(out, 0)
         tag = "%s %s delta at %s" % (kind, "call" if call else "put", edge)
-        c.check(tag + " is not NaN", api.implies(away, api.notnan(o)))
+        # "no price or delta is NaN": everywhere at the edge, the strike itself included (there d1, d2 are 0/0 := 0 and the American
+        # binary is already knocked in because the running maximum is at least the spot)
+        c.check(tag + " is not NaN", api.notnan(o))
         c.check(tag + " takes its limiting value", api.implies(away, api.all_(api.finite(o), api.eq(val(o), want))))
 
     return fn
@@ -225,7 +227,7 @@ def cases():
     for mk, dk in (("bs", "european"), ("bs", "european_binary"), ("ww", "european"), ("ww", "european_binary")):
         for cost_pos in (False, True):
             cs.append(Case("hedger/%s/%s/cost=%s" % (mk, dk, "pos" if cost_pos else "zero"), hedger_case(mk, dk, 3, cost_pos), xmode=True,
-                           encodes=enc, bounds="N=1 T=3, symbolic positive path, symbolic dt, sigma, strike", families=fam, timeout=120 if not cost_pos else 400,
+                           encodes=enc, bounds="N=1 T=3, symbolic positive path, symbolic dt, sigma, strike", families=fam, timeout=120 if not cost_pos else 150,
                            tier="quick" if not cost_pos else "thorough", batch=False))
     cs.append(Case("hedger/bs/american_binary/cost=zero", hedger_case("bs", "american_binary", 3, False), xmode=True, tier="thorough",
                    encodes=enc, bounds="N=1 T=3", families=fam, timeout=300, batch=False))
